@@ -8,6 +8,18 @@ TRUST = ("sqlite3, CPython, simplejson, pyfaidx and the OS are trusted; exhausti
 
 # id -> (engine, technique, level text, design_ref, note)
 CHECKS = {
+ "C01": ("E1", "stateless exhaustive enumeration of a choice tree (file x configuration) over the real create_db/FeatureDB, compared with the generator's expectation",
+         "Every combination of 36 grammar dialects x 6 file shapes x (line count, checklines) x database kind (:memory:, file, reopened) x merge strategy x sort_attribute_values is imported by the real create_db from a freshly written file; all_features() is compared line by line (columns, extras, ordered attributes, byte-identical print), again after reopening, and the printed features are re-imported and compared canonically.",
+         "3/C01", "files satisfy consistency conditions (a)/(b) of DESIGN section 2; unique ids; path input only; " + TRUST),
+ "C08": ("E1", "stateless exhaustive enumeration of all strings up to a length bound over fixed alphabets against the real printer/parser",
+         "All value strings of length <= 2 (quick) / 3 (thorough) over an 18-symbol alphabet, in 4 placements, under all 72 dialect dictionaries are printed and re-parsed by the real code and compared; every attribute-column string of length <= 6 (quick) / 7 (thorough) over the 9-symbol structural alphabet is parsed with inference and three supplied dialects and must neither raise nor yield non-list values.",
+         "3/C08", "arbitrary Unicode beyond the alphabet and longer strings are not covered (small-scope assumption); " + TRUST),
+ "C09": ("E1", "stateless exhaustive enumeration of consistent files and of all two-valued line mixtures against the real inference, compared with a reference vote",
+         "For all 36 dialects x shapes x (n, checklines) the dialect reported by DataIterator, FeatureDB (fresh and reopened) and infer_dialect is compared with the generator's dialect; GFF3 vs GTF import semantics are checked per dialect; for 7 dialect-key contrasts every sequence of <= 5 (quick) / 6 (thorough) lines with per-line value and weight is voted by a ten-line reference and compared; supplied dialects must be used verbatim without peeking.",
+         "3/C09", "both readings of the peek window size (checklines / checklines+1) are accepted for 'order'; " + TRUST),
+ "C14": ("E1", "stateless exhaustive enumeration of all line-kind sequences up to a length bound against the real iterator/importer",
+         "Every sequence of <= 4 (quick) / 5 (+ length 6 over a reduced alphabet, thorough) line kinds {##directive, ###, #comment, blank, feature, ##FASTA, >header} x checklines {0,1,10} x {path, from_string} is run through DataIterator (twice), create_db(:memory:) and create_db(file)+reopen; directives and features are compared with a reference classifier written from the statement.",
+         "3/C14", TRUST),
  "C07": ("E1", "stateless exhaustive enumeration of a choice tree over the real parser/printer, compared with a reference grammar",
          "Every line of a 36-dialect grammar (attribute shapes, escapes, extra columns, '.' coordinates) up to 3 (quick) / 4 (thorough) attributes is parsed and printed by the real code and compared with the generator's expectation: columns, ordered attributes, inferred dialect, byte-identical print, strict=False space rendering.",
          "3/C07", "keys are \\w+, escapes upper-case and of reserved characters only; " + TRUST),
